@@ -355,6 +355,12 @@ func genC18(r *rng, tier string, st *stats) []taggedScen {
 									b.script(x, "post", 0, []Resp{rAct(a)}, rAct(a))
 								}
 								tags := []string{"kind=batch/" + impl, "prep=" + sh.name, fmt.Sprintf("items=%d", n), fmt.Sprintf("post_action=%d", a), fmt.Sprintf("conc=%d", conc)}
+								if n > 0 && (n+a+conc)%3 == 0 {
+									// the context is already cancelled: the items are not executed, post still
+									// decides the action
+									b.sc.PreCancel = true
+									tags = append(tags, "precancel")
+								}
 								if inFlow {
 									y := marker(b)
 									z := marker(b)
@@ -424,7 +430,7 @@ func noteProgress(out string, i int, ts taggedScen) {
 // specName: the predicate the case files apply for a property
 func specName(prop string) string {
 	switch prop {
-	case "C02", "C17", "C05", "C18":
+	case "C02", "C17", "C05", "C18", "C04":
 		return "spec_" + prop + "x"
 	}
 	return "spec_" + prop
